@@ -18,7 +18,7 @@ def generate(rng, tier):
     cases = []
     thorough = tier == "thorough"
     specs = specs_pool(rng, 30 if thorough else 8)
-    for k in range(600 if thorough else 60):
+    for k in range(600 * TH if thorough else 60):
         sp = rng.choice(specs)
         nodes = fix_widths(E.rand_doc(rng, sp, big=(k % 10 == 0), unknown_p=0.3))
         if not nodes:
